@@ -97,7 +97,12 @@ func ResolveRelativeFinalSource(a, b FinalSource) (FinalSource, error) {
 	case LocalSource:
 		aRaw := a.relPath
 		new := path.Join(aRaw, bRaw)
-		if !looksLikeLocalSource(new) {
+		switch {
+		case new == ".":
+			new = "./" // canonical spelling, as required by ParseLocalSource
+		case new == "..":
+			new = "../"
+		case !looksLikeLocalSource(new):
 			new = "./" + new // preserve LocalSource's prefix invariant
 		}
 		return LocalSource{relPath: new}, nil
